@@ -511,10 +511,25 @@ class Fn:
                 continue
             if x in self.unused:
                 self.unused.remove(x)
-            if rng.random() < 0.5:
+            r = rng.random()
+            if r < 0.4:
                 parts.append(('{Val=%s; Tag="t"}' % x, ["named", "IBox", [self.env[x]]], call("{IBox}", V(x), LIT["str"])))
-            else:
+            elif r < 0.7:
                 parts.append(("ISome %s" % x, ["named", "IOpt", [self.env[x]]], call("ISome", V(x))))
+            else:
+                # two type parameters: one side a variable, the other a variable or a literal; two such values in one slice literal
+                # compose their instances (defect 30)
+                y = self.var() or rng.choice(self.params)
+                if y in self.funparams:
+                    continue
+                if y in self.unused:
+                    self.unused.remove(y)
+                if rng.random() < 0.5:
+                    parts.append(("{Fst=%s; Snd=%s}" % (x, y), ["named", "IPair", [self.env[x], self.env[y]]], call("{IPair}", V(x), V(y))))
+                else:
+                    self.eq(["named", "IPair", [self.env[x], STR]], ["named", "IPair", [INT, self.env[y]]])
+                    parts.append(('[{Fst=%s; Snd="s"}; {Fst=1; Snd=%s}]' % (x, y), sl(["named", "IPair", [self.env[x], STR]]),
+                                  ["slice", [call("{IPair}", V(x), LIT["str"]), call("{IPair}", LIT["int"], V(y))]]))
         rng.shuffle(parts)            # the order in the result is independent of the order of the local definitions
         while len(parts) > 1:
             (a, ta, xa), (b, tb, xb) = parts.pop(), parts.pop()
